@@ -325,10 +325,23 @@ func mirrorText(info *types.Info, body *ast.BlockStmt, mirror bool) string {
 	names := map[string]string{"Left": "Right", "Right": "Left", "setLeft": "setRight", "setRight": "setLeft",
 		"rotateLL": "rotateRR", "rotateRR": "rotateLL", "rotateLR": "rotateRL", "rotateRL": "rotateLR", "balance1": "balance2", "balance2": "balance1"}
 	ops := map[token.Token]token.Token{token.LSS: token.GTR, token.GTR: token.LSS, token.LEQ: token.GEQ, token.GEQ: token.LEQ}
+	varNo := map[types.Object]int{}
 	var expr func(e ast.Expr) string
 	expr = func(e ast.Expr) string {
 		switch v := e.(type) {
 		case *ast.Ident:
+			// variables (receiver, parameters, locals) are named by order of first appearance, so that the two procedures
+			// may name them differently; fields, methods and functions keep their (mirrored) names
+			o := info.Uses[v]
+			if o == nil {
+				o = info.Defs[v]
+			}
+			if vo, ok := o.(*types.Var); ok && !vo.IsField() {
+				if _, seen := varNo[o]; !seen {
+					varNo[o] = len(varNo)
+				}
+				return fmt.Sprintf("$v%d", varNo[o])
+			}
 			if mirror {
 				if m, ok := names[v.Name]; ok {
 					return m
